@@ -7,6 +7,7 @@ for d in $root/C*/_out/m*; do
   c=$(echo $d | sed "s|$root/||; s|/_out/.*||"); m=$(basename $d)
   dst=/verif/seeded_staging/$c-$tag$m
   [ -d $dst ] && continue
+  [ -d /verif/seeded/$c-$tag$m ] && continue
   mkdir -p $dst && cp -r $d/. $dst/
   echo $dst
 done > /tmp/staged_$tag.txt
